@@ -53,7 +53,9 @@ from pydjinni.parser.type_model_builder import TypeModelBuilder
 def combine_into(d: dict, combined: dict) -> None:
     for k, v in d.items():
         if isinstance(v, dict):
-            combine_into(v, combined.setdefault(k, {}))
+            if not isinstance(combined.get(k), dict):
+                combined[k] = {}
+            combine_into(v, combined[k])
         else:
             combined[k] = v
 
